@@ -7,7 +7,7 @@ import re
 
 import sympy as sp
 
-from ..core import AnalysisError, FuncInfo, Program, call_name, const_value, dotted, unparse, walk_no_nested
+from ..core import seq, AnalysisError, FuncInfo, Program, call_name, const_value, dotted, unparse, walk_no_nested
 from ..degree import MU, analyse
 from ..report import Ctx
 
@@ -340,23 +340,23 @@ def ordered_rule(ctx: Ctx, rule: str) -> None:
     if ok:
         # next_tau = tau + diffs[item], defined before the probability; tau = next_tau after it
         nd = assigns.get(nxt)
-        okn = nd is not None and nd.lineno < assigns[proba].lineno and isinstance(nd.value, ast.BinOp) and isinstance(nd.value.op, ast.Add) and unparse(nd.value.left) == carried
+        okn = nd is not None and seq(nd) < seq(assigns[proba]) and isinstance(nd.value, ast.BinOp) and isinstance(nd.value.op, ast.Add) and unparse(nd.value.left) == carried
         diffs = unparse(nd.value.right).split('[')[0] if okn else None
         okn = okn and unparse(nd.value.right) == f'{diffs}[{item}]'
         ctx.add(rule, 'ordered_likelihood:next', okn, (f.file, nd.lineno if nd is not None else loop.lineno),
                 f'{nxt} = {unparse(nd.value) if nd is not None else "?"}' + ('' if okn else f'; the next threshold must be the current one ({carried}) plus a non-negative increment of this item'),
                 unparse(nd.value) if nd is not None else 'missing')
         upd = assigns.get(carried)
-        oku = upd is not None and unparse(upd.value) == nxt and upd.lineno > assigns[proba].lineno
+        oku = upd is not None and unparse(upd.value) == nxt and seq(upd) > seq(assigns[proba])
         ctx.add(rule, 'ordered_likelihood:carry', oku, (f.file, upd.lineno if upd is not None else loop.lineno), f'{carried} = {nxt} after the probability is stored' if oku else f'the threshold {carried} is not advanced to {nxt} after use', unparse(upd) if upd is not None else 'missing')
         # initialisation and ends
-        init = [s for s in src if isinstance(s, ast.Assign) and unparse(s.targets[0]) == carried and s.lineno < loop.lineno]
+        init = [s for s in src if isinstance(s, ast.Assign) and unparse(s.targets[0]) == carried and seq(s) < seq(loop)]
         oki = len(init) == 1 and unparse(init[0].value) == tau0
         ctx.add(rule, 'ordered_likelihood:init', oki, f, f'{carried} starts at {tau0}' if oki else f'{carried} does not start at {tau0}', unparse(init[0]) if init else 'missing')
-        first = [s for s in src if isinstance(s, ast.Assign) and unparse(s.targets[0]) == pname and s.lineno < loop.lineno]
+        first = [s for s in src if isinstance(s, ast.Assign) and unparse(s.targets[0]) == pname and seq(s) < seq(loop)]
         okf = len(first) == 1 and unparse(first[0].value).replace(' ', '') == f'{{{vals}[0]:1-{cdf}({x}-{tau0})}}'
         ctx.add(rule, 'ordered_likelihood:first', okf, f, f'P(first) = 1 - {cdf}({x} - {tau0})' if okf else f'first category: {unparse(first[0].value) if first else "missing"}', unparse(first[0].value) if first else 'missing')
-        last = [s for s in src if isinstance(s, ast.Assign) and unparse(s.targets[0]) == f'{pname}[{vals}[-1]]' and s.lineno > loop.lineno]
+        last = [s for s in src if isinstance(s, ast.Assign) and unparse(s.targets[0]) == f'{pname}[{vals}[-1]]' and seq(s) > seq(loop)]
         okl = len(last) == 1 and unparse(last[0].value) == f'{cdf}({x} - {carried})'
         ctx.add(rule, 'ordered_likelihood:last', okl, f, f'P(last) = {cdf}({x} - {carried})' if okl else f'last category: {unparse(last[0].value) if last else "missing"}', unparse(last[0].value) if last else 'missing')
         # increments are Beta with a constant non-negative lower bound
